@@ -20,6 +20,14 @@ pub struct SchedStats {
 
 thread_local! {
     pub static STATS: RefCell<SchedStats> = RefCell::new(SchedStats::default());
+    /// While set, only the task that set it is scheduled (used to make "the runtime shuts down" atomic: every task is
+    /// flagged as cancelled before any of them runs again).
+    pub static FREEZE: std::cell::Cell<Option<usize>> = const { std::cell::Cell::new(None) };
+}
+
+pub fn freeze_others(on: bool) {
+    let me = shuttle::current::get_current_task().map(usize::from);
+    FREEZE.with(|f| f.set(if on { me } else { None }));
 }
 
 #[derive(Debug)]
@@ -45,6 +53,12 @@ impl Scheduler for ChoiceScheduler {
     }
 
     fn next_task(&mut self, runnable: &[&Task], current: Option<TaskId>, is_yielding: bool) -> Option<TaskId> {
+        if let Some(only) = FREEZE.with(|f| f.get()) {
+            if let Some(t) = runnable.iter().find(|t| usize::from(t.id()) == only) {
+                STATS.with(|s| s.borrow_mut().steps += 1);
+                return Some(t.id());
+            }
+        }
         let mut order: Vec<TaskId> = runnable.iter().map(|t| t.id()).collect();
         let cur_pos = current.and_then(|c| order.iter().position(|t| *t == c));
         if let Some(i) = cur_pos {
